@@ -18,14 +18,14 @@ trap 'git -C /repo worktree remove --force "$scratch"; git -C /repo worktree pru
 (cd "$dst/demo" && find . -type f ! -name SEEDED.md ! -name '*.md') | while read -r f; do mkdir -p "$scratch/$(dirname "$f")"; cp "$dst/demo/$f" "$scratch/$f"; done
 cd "$scratch"
 echo "--- without the change: demo must pass"
-timeout 600 go1.26.8 test -count=1 -run "$demo" $pkg > "$dst/demo_without.log" 2>&1; rc_without=$?
+timeout 600 go1.26.8 test -count=1 ${SEED_TAGS:+-tags $SEED_TAGS} -run "$demo" $pkg > "$dst/demo_without.log" 2>&1; rc_without=$?
 tail -3 "$dst/demo_without.log"
 git apply "$dst/patch.diff" || { echo "patch does not apply to HEAD"; exit 1; }
 echo "--- with the change: build + suite (demo skipped) must pass, demo must fail"
 go1.26.8 build ./... && go1.26.8 build -tags verif ./... ; rc_build=$?
 timeout 1200 go1.26.8 test -count=1 -skip "$demo" ./... > "$dst/suite_with.log" 2>&1; rc_suite=$?
 tail -3 "$dst/suite_with.log"
-timeout 600 go1.26.8 test -count=1 -run "$demo" $pkg > "$dst/demo_with.log" 2>&1; rc_with=$?
+timeout 600 go1.26.8 test -count=1 ${SEED_TAGS:+-tags $SEED_TAGS} -run "$demo" $pkg > "$dst/demo_with.log" 2>&1; rc_with=$?
 tail -5 "$dst/demo_with.log"
 echo "build=$rc_build suite=$rc_suite demo_without=$rc_without demo_with=$rc_with"
 if [ $rc_build -eq 0 ] && [ $rc_suite -eq 0 ] && [ $rc_without -eq 0 ] && [ $rc_with -ne 0 ]; then
